@@ -693,6 +693,23 @@ func oracleC07(c *oracleCtx) {
 			}
 		}
 	}
+	// pairs: what one element denotes must not depend on its neighbour (an escape followed by a digit or a letter that
+	// would extend it, with or without a value-less line continuation in between)
+	heads := []string{`\0`, `\1`, `\12`, `\x5c`, `\\`, `\u005C`, `\u{5c}`, `\x0`, `\u00`, `\u{4`, `\`}
+	tails := []string{"0", "1", "7", "8", "n", "x41", "u0041", "u{41}", "\"", "'", `\x31`, `\u0037`, `\u{37}`, "}", "\n"}
+	for _, h := range heads {
+		for _, t := range tails {
+			for _, mid := range []string{"", "\\\n", "\\\r\n", "\\\n\\\n"} {
+				for _, q := range quotes {
+					if strings.Contains(t, string(q)) || t == "\n" && mid == "" && h == `\` {
+						continue
+					}
+					k.lit(c07Quote(q, h+mid+t), true)
+					k.lit(c07Quote(q, "a"+h+mid+t+"b"), true)
+				}
+			}
+		}
+	}
 	// random concatenations
 	for i, n := 0, c.n(3500, 400000); i < n && !c.expired(); i++ {
 		lit := ""
